@@ -8,8 +8,8 @@
 //!   stability options (max_iter 50-400, tol 1e-8..1e-5); feed root (stable / liquid / vapor).
 //! * `pure` (sampled): pure records, 40-point density grid from 0.2 rho_v to 1.1 rho_l.
 use super::c05::{
-    all_dilute, build_point, envelope, err_name, fresh, gen_mixpoint, gen_opt, ln_fugacity, p_of, pool_of, pressure_red, rec_name,
-    build_nearcrit, nearcrit_items, track, vle_like, worst_json, Built, MixKind, MixPoint, NearCritCase, Pe2, SolverOpt, St, G2001_HC, LATTICE_T, LATTICE_X,
+    build_point, envelope, err_name, fresh, gen_mixpoint, gen_opt, ln_fugacity, p_of, pool_of, pressure_red, rec_name,
+    build_nearcrit, nearcrit_items, track, vle_like, worst_json, zero_pressure_result, Built, MixKind, MixPoint, NearCritCase, Pe2, SolverOpt, St, G2001_HC, LATTICE_T, LATTICE_X,
 };
 use crate::engine::{Ctx, Gen, Obs, PanicPolicy, PartCfg};
 use crate::model::*;
@@ -278,7 +278,7 @@ fn usable_envelope(b: &Built, obs: &mut Obs) -> Option<(Pe2, Pe2)> {
             return None;
         }
     };
-    if all_dilute(&[bub.vapor(), bub.liquid()]) || all_dilute(&[dew.vapor(), dew.liquid()]) {
+    if zero_pressure_result(&[bub.vapor(), bub.liquid()]) || zero_pressure_result(&[dew.vapor(), dew.liquid()]) {
         obs.discard("envelope is the zero-pressure gas pair (C05 finding)");
         return None;
     }
